@@ -19,7 +19,7 @@
      (None = the callee panics), a pure function of the callee's name and arguments.
    * ill-typed programs / unbound variables are the outcome Stuck (never produced by compiled Go;
      every bridge proves Ret or Panic, so Stuck and OutOfFuel are excluded where it matters). *)
-From Coq Require Import ZArith List String Bool Lia.
+From Coq Require Import ZArith NArith List String Bool Lia.
 Import ListNotations.
 Local Open Scope Z_scope.
 
@@ -629,6 +629,16 @@ Proof.
     rewrite firstn_app, Nat.sub_diag, firstn_all, app_nil_r. reflexivity.
   - symmetry. rewrite !andb_true_iff. repeat split; apply Z.leb_le; lia.
 Qed.
+
+(* byte strings of the models (list N) as IMP arrays *)
+Definition zs (b : list N) : list Z := map Z.of_N b.
+Lemma zs_app a b : zs (a ++ b) = zs a ++ zs b.
+Proof. apply map_app. Qed.
+Lemma zs_length a : List.length (zs a) = List.length a.
+Proof. apply map_length. Qed.
+
+(* the oracle of a function that makes no external call *)
+Definition no_ext : string -> list val -> option (list val) := fun _ _ => None.
 
 Lemma b2z_eqb0 b : (b2z b =? 0) = negb b.
 Proof. destruct b; reflexivity. Qed.
